@@ -161,8 +161,11 @@ def run(ck):
     ntrees = 25 if q else 400
     for ti in range(ntrees):
         depth = ck.rng.randrange(0, 5)
+        ordered = ti % 3 == 1
+        if ordered:
+            depth = max(depth, 2)
         t = C.gen_tree(ck.rng, depth=depth)
-        C.assign_pages(ck.rng, t, p_owner=ck.rng.choice([0.0, 0.3, 0.6]))
+        C.assign_pages(ck.rng, t, p_owner=0.9 if ordered else ck.rng.choice([0.0, 0.3, 0.6]))
         malform = None
         if ti % 5 == 4:
             keys = sorted(t.nodes)
@@ -175,7 +178,7 @@ def run(ck):
                 malform = ("cycle",) + ck.rng.choice(sib) if sib else ("self", ck.rng.choice(keys))
             else:
                 malform = (kind, ck.rng.choice(keys))
-        data = C.build(ck.rng, t, malform=malform)
+        data = C.build(ck.rng, t, malform=malform, ordered=ordered)
         root_tok, pages_tok = C.model_pages(t)
         mins = [t.root_grid[i] * t.scale + t.offsets[i] for i in range(3)]
         geo_tok = ",".join(C.frac(v) for v in mins + [t.G * t.scale])
@@ -183,6 +186,20 @@ def run(ck):
         by_loc = {t.node_loc[k]: k for k in t.nodes if len(t.nodes[k])}
         shared = CopcReader(io.BytesIO(data))
         hdr = shared.header
+        if ordered and malform is None:
+            # one reader asked level after level on a file whose chunks lie level by level without gaps and whose deeper levels sit in pages of their
+            # own: each answer is what a fresh reader gives (the source's position after one query - and after the page loads of the next - is nobody's business)
+            ck.count("one_reader_level_after_level")
+            seq_reader = CopcReader(io.BytesIO(data))
+            for L in range(0, depth + 1):
+                a_ = guarded(lambda: seq_reader.query(level=L))
+                b_ = guarded(lambda: CopcReader(io.BytesIO(data)).query(level=L))
+                ok_ = (a_[0] == b_[0] == "ok") and sorted(bytes(r) for r in a_[1].array) == sorted(bytes(r) for r in b_[1].array) if a_[0] == "ok" and b_[0] == "ok" else a_[0] == b_[0]
+                ck.evaluations += 1
+                if not ok_:
+                    ck.fail(f"one reader asked level after level: its answer for level {L} ({a_[0]}, {len(a_[1]) if a_[0] == 'ok' else '-'} points) is not what a fresh reader "
+                            f"returns ({b_[0]}, {len(b_[1]) if b_[0] == 'ok' else '-'} points; same count, other records)" , {"kind": "level_after_level", "tree": ti, "depth": depth, "level": L, "fmt": t.fmt})
+                    break
         if ti % 2 == 0:
             # the shared reader first serves a query that stops one or two levels above the deepest one: what it keeps of the lazily loaded
             # pages must not depend on that (every later query on it is compared with a fresh reader's answer)
@@ -203,10 +220,16 @@ def run(ck):
                 level = None
             if qi == 1:
                 mode = "res"        # on every tree: a resolution that is exactly the spacing of one of its levels
+            if qi == 3:
+                mode = "res"        # on every tree: a resolution coarser than the root level's spacing (levels 0..0: the root node's points)
             if mode in ("res", "resbox"):
                 res = t.spacing / 2.0 ** ck.rng.randrange(-2, 6) * ck.rng.choice([1.0, 1.25, 0.75])
                 if qi == 1:
                     res = t.spacing / 2.0 ** ck.rng.randrange(0, depth + 1)
+                    level, box = None, None
+                if qi == 3:
+                    res = t.spacing * [2.0, 4.0, 2.5, 100.0][ti % 4]
+                    res = int(res) if ti % 8 >= 4 and float(res).is_integer() else res
                     level, box = None, None
             inp = {"kind": "query", "tree": ti, "depth": depth, "nodes": len(t.nodes), "pages": len(t.entries), "malform": malform,
                    "level": None if level is None else level_tok(level), "box": None if box is None else [box[0], [repr(v) for v in box[1]], [repr(v) for v in box[2]]],
